@@ -66,7 +66,10 @@ fn worker_main() -> i32 {
                 let check = cmd["check"].as_str().unwrap_or("");
                 let seed = cmd["seed"].as_u64().unwrap_or(0);
                 let tier = profiles::tier_from(cmd["tier"].as_str().unwrap_or("quick"));
-                let scn = profiles::generate(check, seed, tier);
+                let mut scn = profiles::generate(check, seed, tier);
+                if let (Some(env), Some(o)) = (cmd.get("env").filter(|e| e.is_object()), scn.as_object_mut()) {
+                    o.insert("env".into(), env.clone());
+                }
                 let mut r = profiles::execute(&scn);
                 r.seed = seed;
                 r
